@@ -173,7 +173,8 @@ def b_values(case, ctx):
     classes = OrderedDict()
     for i, v in enumerate(vals):
         classes.setdefault(v, []).append(i)
-    ctx.note(nontrivial=(len(classes) >= 2 and any(len(v) >= 2 for v in classes.values())), cls="values:" + case["dtype"])
+    near = n >= 2 and any(0 < abs(a - b) <= 6 and abs(a) > 2**53 for a, b in zip(vals, vals[1:]))
+    ctx.note(nontrivial=(len(classes) >= 2 and any(len(v) >= 2 for v in classes.values())), cls=["values:" + case["dtype"]] + (["values:adjacent_distinct_above_2^53"] if near else []))
     # group with bounds
     for mn, mx in case["bounds"]:
         g = grouping.group(data, min_len=mn, max_len=mx)
@@ -373,6 +374,10 @@ def values_case(draw):
         pool = [v for v in BOUNDARY if info.min <= v <= info.max]
         elem = st.one_of(st.sampled_from(pool), st.integers(max(info.min, -4), min(info.max, 6)))
     pool_vals = draw(st.lists(elem, min_size=1, max_size=5))
+    if dtype != "bool" and draw(st.integers(0, 2)) == 0:
+        # neighbours: distinct values a few units apart at a large magnitude (float64 cannot tell them apart above 2**53)
+        base = draw(st.sampled_from([v for v in pool + [2**53, -(2**53), 2**53 + 2**20, 2**56 + 1, 3 * 2**60, -(2**61) - 5] if info.min <= v <= info.max]))
+        pool_vals = [int(min(max(base + d, info.min), info.max)) for d in draw(st.lists(st.integers(-3, 3), min_size=2, max_size=5))]
     n = draw(st.integers(0, 20))
     vals = [pool_vals[i] for i in draw(st.lists(st.integers(0, len(pool_vals) - 1), min_size=n, max_size=n))]
     bounds = draw(
@@ -522,4 +527,5 @@ REQUIRED_CLASSES["C06"] = [
     "c3:>=pack_limit:pack",
     "c4:at_pack_limit:pack",
     "blocks:wrap_joined",
+    "values:adjacent_distinct_above_2^53",
 ]
